@@ -1,18 +1,19 @@
 (* What the engine computes on the fragment of the reference evaluator (Spec/ExprEval.v), where it
    is known to differ from it. render.go evaluates arithmetic in binary64: every arithmetic result is a
    float64, also when both operands were Go ints, so a zero can be the negative zero (printed -0 by
-   strconv.FormatFloat), and toBool decides the truth of a float64 by the shape recorded in
+   strconv.FormatFloat) unless the results are normalised (Gen/ArithShape.v), and toBool decides the truth of a float64 by the shape recorded in
    Gen/EvalShape.v (evs_tobool_float_by_value = false: every float64, zero included, is true).
    Same typing discipline as the reference evaluator; outside it Unmodelled. The correspondence runner
    attributes a difference from the reference value to a known quirk only when this model predicts
    exactly the observed text. No proofs here. *)
-From Twig Require Import Base.Bytes Model.Ast Model.Value Spec.ExprEval Gen.EvalShape.
+From Twig Require Import Base.Bytes Model.Ast Model.Value Spec.ExprEval Gen.EvalShape Gen.ArithShape.
 
 (* XFlt z nz: the float64 with integral value z; nz marks the negative zero (only when z = 0) *)
 Inductive xe_val := XInt (z : Z) | XFlt (z : Z) (nz : bool) | XBool (b : bool) | XStr (s : bytes).
 
+(* the negative zero survives only while Gen/ArithShape.v says that results are not passed through plusZero *)
 Definition xe_flt (z : Z) (nz : bool) : outcome xe_val :=
-  if spec_in_range z then Ok (XFlt z (nz && (z =? 0)%Z)) else Unmodelled.
+  if spec_in_range z then Ok (XFlt z (nz && (z =? 0)%Z && negb ar_negzero_normalised)) else Unmodelled.
 Definition xe_num (v : xe_val) : option (Z * bool) :=
   match v with XInt z => Some (z, false) | XFlt z nz => Some (z, nz) | _ => None end.
 Definition xe_negative (z : Z) (nz : bool) : bool := (z <? 0)%Z || ((z =? 0)%Z && nz).
